@@ -15,18 +15,29 @@ Proof.
   unfold gen_check_is_univariate, s_isinstance, s_ndim. destruct (cont (sd y)); reflexivity.
 Qed.
 
+(* case analysis on every test the regenerated code makes, whatever comparison it is written with *)
+Ltac split_tests :=
+  cbv zeta;
+  repeat match goal with
+         | |- context [if ?b then _ else _] =>
+             lazymatch b with
+             | context [if _ then _ else _] => fail
+             | _ => let E := fresh "E" in destruct b eqn:E
+             end
+         end.
+
 Theorem bridge_check_time_index i e eit :
   gen_check_time_index i e eit = if time_index_ok e eit i then Ok (ix_norm i) else Err.
 Proof.
   unfold gen_check_time_index, time_index_ok, ix_norm, ix_type_in, ix_type_is, ix_is_ndarray,
-    ix_from_ndarray.
+    ix_from_ndarray, ix_len.
   destruct i as [k n srt lab]. cbn [ik ilen isorted ilab].
-  destruct k; cbn [ixkind_eqb existsb orb negb ixkind_valid ik andb];
+  destruct k; cbn [ixkind_eqb existsb orb negb ixkind_valid ik ilen isorted andb];
     try reflexivity;
     destruct eit as [t|]; try (destruct t; cbn [ixkind_eqb negb andb]; try reflexivity);
     destruct srt; cbn [negb andb]; try reflexivity;
-    destruct e; cbn [negb orb]; try reflexivity;
-    destruct (n <? 1) eqn:E1; destruct (1 <=? n) eqn:E2; try lia; reflexivity.
+    destruct e; cbn [negb orb andb];
+    split_tests; try reflexivity; try discriminate; lia.
 Qed.
 
 Theorem bridge_check_series s u e np eit :
@@ -115,15 +126,22 @@ Proof.
   induction l as [|a t IH]; [reflexivity|]. cbn. destruct (p a); cbn; [reflexivity|exact IH].
 Qed.
 
+Lemma existsb_forallb {A} (p : A -> bool) l : existsb p l = negb (forallb (fun x => negb (p x)) l).
+Proof. induction l as [|a t IH]; [reflexivity|]. cbn. rewrite IH. destruct (p a); reflexivity. Qed.
+
+(* the three checks of _check_names, however the code phrases them (a filtered list that must be
+   empty, `any(..)`, a comparison of lengths either way round) *)
 Theorem bridge_check_names names params :
   gen_check_names names params = if names_ok names params then Ok tt else Err.
 Proof.
-  unfold gen_check_names, names_ok, n_distinct, n_names, names_in_params.
-  rewrite <- (map_length nid names), n_distinct_nodup.
-  destruct (nodup_b (map nid names)); cbn [negb andb]; [|reflexivity].
-  rewrite !is_nil_filter_forallb.
-  destruct (forallb (fun x => negb (zmem (nid x) params)) names); cbn [negb andb]; [|reflexivity].
-  destruct (forallb (fun x => negb (has_dunder x)) names); reflexivity.
+  unfold gen_check_names, names_ok, n_distinct, n_names, names_in_params. cbv zeta.
+  rewrite <- (map_length nid names).
+  rewrite ?is_nil_filter_forallb, ?existsb_forallb.
+  pose proof (n_distinct_nodup (map nid names)) as Hd.
+  destruct (nodup_b (map nid names));
+    destruct (forallb (fun x => negb (zmem (nid x) params)) names);
+    destruct (forallb (fun x => negb (has_dunder x)) names);
+    cbn [negb andb]; split_tests; try reflexivity; try discriminate; lia.
 Qed.
 
 Theorem bridge_check_forecasters f params :
